@@ -203,6 +203,36 @@ def rules(ctx: Ctx) -> None:
     # ---- R04.8 (= R05.3): the chain is the composition of the statements' own lineage - an extractor kept across statements adds an earlier
     # statement's columns / set-operation barriers to a later one
     _imp04(ctx, "C05", {"R05.3": "R04.8"}, key_filter=lambda o: o.key.startswith(("analyzer-state", "per-query-object")))
+    # ---- R04.10 every route is reported: the paths that get_column_lineage returns are enumerated exhaustively (networkx all_simple_paths over the
+    # column graph).  The shortest-path family reports one route per pair - a column that reaches a target both directly and through an
+    # intermediate table loses the chain through the intermediate
+    gcl = prog.cls("core.holders.ColumnLineageMixin").methods.get("get_column_lineage")
+    if gcl is None:
+        raise AnalysisError("ColumnLineageMixin.get_column_lineage not found")
+    ctx.touched(gcl)
+    EXHAUSTIVE = {"all_simple_paths", "all_simple_edge_paths", "shortest_simple_paths"}
+    PARTIAL = {"shortest_path", "all_shortest_paths", "single_source_shortest_path", "single_target_shortest_path", "bidirectional_shortest_path", "dijkstra_path",
+               "all_pairs_shortest_path", "bellman_ford_path", "astar_path", "dag_longest_path", "bfs_tree", "dfs_tree", "bfs_edges", "dfs_edges", "bfs_successors", "dfs_preorder_nodes"}
+    n_ins = 0
+    for k in prog.walk_fn(gcl):
+        pv = None
+        if isinstance(k, ast.Call) and isinstance(k.func, ast.Attribute) and k.func.attr == "add" and k.args and isinstance(k.args[0], ast.Call) and u(k.args[0].func) == "tuple" and k.args[0].args:
+            pv = k.args[0].args[0]
+        elif isinstance(k, (ast.SetComp, ast.ListComp, ast.GeneratorExp)) and isinstance(k.elt, ast.Call) and u(k.elt.func) == "tuple" and k.elt.args:
+            pv = k.elt.args[0]
+        if pv is None:
+            continue
+        n_ins += 1
+        calls = {(c.func.attr if isinstance(c.func, ast.Attribute) else c.func.id) for c in prog.influences(gcl, pv) if isinstance(c, ast.Call) and isinstance(c.func, (ast.Attribute, ast.Name))}
+        if isinstance(k, (ast.SetComp, ast.ListComp, ast.GeneratorExp)):
+            for g_ in k.generators:
+                calls |= {(c.func.attr if isinstance(c.func, ast.Attribute) else c.func.id) for c in prog.influences(gcl, g_.iter) if isinstance(c, ast.Call) and isinstance(c.func, (ast.Attribute, ast.Name))}
+        partial = sorted(calls & PARTIAL)
+        ctx.ob("R04.10", "every-route-is-reported", bool(calls & EXHAUSTIVE) and not partial, loc(gcl.mod, k),
+               f"`{u(k)[:60]}`: the reported paths come from {sorted(calls & (EXHAUSTIVE | PARTIAL)) or 'no path enumeration of networkx'}" + (
+                   f" - {partial[0]} yields one (shortest) route per pair, longer chains through intermediate tables are dropped" if partial else ""))
+    ctx.floor("insertions into the result of get_column_lineage", n_ins, 1)
+
     # ---- R04.9 (= R11.1 in the provider): the columns a script registers for a table keep the order of the script (an INSERT without column list is
     # paired with them by position)
     _imp04(ctx, "C11", {"R11.1": "R04.9"}, key_filter=lambda o: o.key.startswith("MetaDataProvider."))
